@@ -201,6 +201,7 @@ func VerifHarness_C20_LegacySpacing() {
 		if len(a) == len(b) {
 			for k := range a {
 				verifAssert(a[k].Command == b[k].Command, "C20: repeated whitespace in a query does not change the results or their order")
+				verifAssert(c03SameFloat(a[k].Score, b[k].Score), "C20: repeated whitespace in a query does not change the scores")
 			}
 		}
 	}
